@@ -16,7 +16,7 @@ PREFIXES = ["C02.", "C01.", "Any.Crash"]
 def run(chk):
     cerlib.run_config(chk, "C02", PREFIXES)
     cerlib.run_config(chk, "C02hist", PREFIXES)
-    cerlib.run_config(chk, "C02client", PREFIXES)
+    cerlib.run_config(chk, "C02client" if chk.tier == "thorough" else "C02clientQ", PREFIXES)
     cerlib.finish_cov(chk, "one behaviour per (algorithm list, id length, counter flag, store) and per registration history; client: per (challenge class, client-data mode, origin/RP-ID class, algorithm list)",
                       False, "bounded histories, abstract cryptography; exhaustive within the bound")
 
